@@ -251,3 +251,15 @@ Example keyword_fused_with_term_refuted :
     stmt_of_equation (row_of ["Y"; "X"]) "Y = 1 if not {X} > 0 else 2"
     = Some ("Y", SAssign 0 0%Z (EIf CGt (ERead 1 0%Z) (ENum "0") (ENum "2") (ENum "1"))).
 Proof. exists "Y = 1 if not{X} > 0 else 2". eexists. split; [vm_compute; reflexivity|]. repeat split; vm_compute; reflexivity. Qed.
+
+(* a lead / a lag on the LEFT-hand side: the write lands at t + k0 (here Y[t+1] and Z[t-1] at t = 1), nowhere else *)
+Example lhs_offset_pass :
+  match fprogram_of_script ("Y[1] = X[-1] + 1" ++ lf ++ "Z[-1] = Y[1]*2") with
+  | Some (names, p) =>
+    names = ["Y"; "Z"; "X"] /\
+    f_eval_pass [] false p 1%Z [[0; 0; 0]; [0; 0; 0]; [5; 6; 7]]%float
+    = (([[0; 0; 6]; [12; 0; 0]; [5; 6; 7]]%float, None),
+       [Acc false 2 0%Z (Some 0); Acc true 0 2%Z (Some 2); Acc false 0 2%Z (Some 2); Acc true 1 0%Z (Some 0)])
+  | None => False
+  end.
+Proof. vm_compute. split; reflexivity. Qed.
